@@ -7,7 +7,8 @@ class names, base classes, constructor parameters, type definitions, keyword esc
 are not modelled.
 
 * `pyName`      – `is_python_keyword`: identifiers in `keyword_list[]` (regenerated from the C source into
-                  `Generated/GenPyGen.lean`) get a trailing underscore.
+                  `Generated/GenPyGen.lean`) get a trailing underscore; with the regenerated `escapesStems` also a keyword
+                  followed by underscores (`class_` → `class__`), so that the escaped `class` and a declared `class_` differ.
 * `chainLen`    – `count_supertypes`: length of the longest supertype chain.
 * `bases`       – `LISTsort(supertypes, cmp_python_mro)`: the bubble sort of linklist.c swaps neighbours while the left
                   chain is *shorter*; the result is the stable sort by decreasing chain length.  The sort is in place:
@@ -90,8 +91,15 @@ structure Schema where
 
 def isParam (a : Attr) : Bool := a.kind == .explicit || a.kind == .optional
 
+/-- the word without its trailing underscores (`while( stem > 0 && word[stem - 1] == '_' ) stem--;`) -/
+def stem (n : String) : String := String.ofList ((n.toList.reverse.dropWhile (· == '_')).reverse)
+
+/-- what `is_python_keyword` compares with the items of `keyword_list[]`: the word (`strcmp`), or — regenerated
+`escapesStems` — the word without its trailing underscores -/
+def keywordKey (n : String) : String := if escapesStems then stem n else n
+
 /-- `is_python_keyword` + the trailing underscore -/
-def pyName (n : String) : String := if n ∈ pythonKeywords then n ++ "_" else n
+def pyName (n : String) : String := if keywordKey n ∈ pythonKeywords then n ++ "_" else n
 
 def find (es : List Entity) (n : String) : Option Entity := es.find? (fun e => e.name == n)
 
